@@ -477,6 +477,13 @@ let run_serve fields = match fields with
   | _ -> failwith "serve: want 4 fields"
 
 
+(* ---- C01: names a sending client gives an absolute source path ---- *)
+let run_clientnames fields = match fields with
+  | [tree; path] ->
+    let names = client_names (parse_ftree tree) (bytes_of_hex path) in
+    String.concat ";" (List.sort compare (List.map hex_of_bytes_plain names))
+  | _ -> failwith "clientnames: want 2 fields"
+
 (* ---- SSH listeners ---- *)
 let run_sshkey fields = match fields with
   | [anon; listed] ->
@@ -673,6 +680,7 @@ let dispatch comp fields =
   | "sshkey" -> run_sshkey fields
   | "sshexec" -> run_sshexec fields
   | "serve" -> run_serve fields
+  | "clientnames" -> run_clientnames fields
   | "daemonreq" -> run_daemonreq fields
   | "atomic" -> run_atomic fields
   | "recvmeta" -> run_recvmeta fields
